@@ -346,7 +346,13 @@ func (v *Verdict) FailDetail() string {
 	case !v.DataEqual:
 		return v.Diff
 	case !v.ErrorsIff():
-		return fmt.Sprintf("gateway errors=%v reference errors=%v", v.GatewayErrors, v.RefErrors)
+		d := fmt.Sprintf("gateway errors=%v reference errors=%v; data equal", v.GatewayErrors, v.RefErrors)
+		if v.Gateway != nil && v.Gateway.HasErrors() {
+			if m := v.Gateway.Errors.Items[0].Get("message"); m != nil {
+				d += "; gateway error: " + trunc(m.Raw, 160)
+			}
+		}
+		return d
 	case len(v.InvalidRequests) > 0:
 		return joinTrunc(v.InvalidRequests, 2)
 	case len(v.NotOwned) > 0:
